@@ -151,6 +151,9 @@ theorem safe_associatePT {s0 : St} (hg0 : Good s0) (lrv : Nat) (tmpl : List Desi
               · intro _ _
                 rw [exec_gcUpdate_state]
                 obtain ⟨hsh, hdead⟩ := exec_delete_shrunk s hg.nodup o.kind o.name
+                  (by intro x hx hkx
+                      have : x = o := eq_of_key_eq hg.nodup hx hm (by rw [hkx]; rfl)
+                      exact this ▸ hc)
                 have hsh0 := hacc.sh.trans hsh
                 apply safe_wcall hg
                 · exact hsh.good hg
@@ -291,7 +294,8 @@ def entsPT (rs : List Rendered) : List Ent := rs.map fun e => (e.d.rname, rkey e
 theorem exec_updateXR_cases (s : St) (rv : Nat) (refs : List Ref) :
     ((exec s (.updateXR rv refs)).2 = .conflict ∧ (exec s (.updateXR rv refs)).1 = s) ∨
     ((exec s (.updateXR rv refs)).2 ≠ .conflict ∧ (exec s (.updateXR rv refs)).2 ≠ .err ∧
-      (exec s (.updateXR rv refs)).1.refs = refs ∧ (exec s (.updateXR rv refs)).1.objs = s.objs) := by
+      (exec s (.updateXR rv refs)).1.refs = refs ∧ (exec s (.updateXR rv refs)).1.objs = s.objs ∧
+      (exec s (.updateXR rv refs)).1.foreign0 = s.foreign0) := by
   simp only [exec]
   by_cases h1 : rv ≠ s.xrRv
   · left; simp [h1]
@@ -304,7 +308,7 @@ theorem exec_updateXR_cases (s : St) (rv : Nat) (refs : List Ref) :
 controlled by the XR is among them -/
 theorem mid_after_update {s0 s s' : St} (hg0 : Good s0) {tmpl : List Desired} {a : Assoc}
     (hass : AssocOK s0 s tmpl s0.refs a) {rs : List Rendered} (hr : RendOK s a tmpl rs)
-    (hrefs : s'.refs = rs.map rkey) (hobjs : s'.objs = s.objs) : Mid s' (entsPT rs) := by
+    (hrefs : s'.refs = rs.map rkey) (hobjs : s'.objs = s.objs) (hf0 : s'.foreign0 = s.foreign0) : Mid s' (entsPT rs) := by
   have hg := hass.sh.good hg0
   have hmem : ∀ r, r ∈ rs.map rkey ↔ ∃ e ∈ entsPT rs, r = e.2 := by
     intro r
@@ -312,7 +316,9 @@ theorem mid_after_update {s0 s s' : St} (hg0 : Good s0) {tmpl : List Desired} {a
     constructor
     · rintro ⟨e, he, rfl⟩; exact ⟨_, ⟨e, he, rfl⟩, rfl⟩
     · rintro ⟨_, ⟨e, he, rfl⟩, rfl⟩; exact ⟨e, he, rfl⟩
-  refine ⟨hobjs ▸ hg.nodup, hobjs ▸ hg.named, ?_, ?_, ?_, ?_⟩
+  refine ⟨hobjs ▸ hg.nodup, hobjs ▸ hg.named, ?_, ?_, ?_, ?_, ?_⟩
+  rotate_right
+  · rw [hf0, hobjs]; exact hg.frame
   · intro r; rw [hrefs]; exact hmem r
   · rw [hobjs, hrefs]
     intro o ho hc hd
@@ -385,6 +391,7 @@ theorem mid_create {s : St} {ents : List Ent} (h : Mid s ents) (e : Ent) (he : e
     (exec s (.create e.2.kind e.2.name e.1 c)).2 = .ok ∧ Mid (exec s (.create e.2.kind e.2.name e.1 c)).1 ents := by
   have hw := mid_write h e he hne (fun o => { o with annot := e.1 }) (fun _ => rfl) (fun _ => rfl)
     ⟨e.2.kind, e.2.name, e.1, .xr, false, false, c, false⟩ rfl rfl
+    (by intro o ho; rw [hf] at ho; cases ho)
   simp only [exec, hf]
   exact ⟨trivial, by simpa [hf] using hw⟩
 
@@ -393,6 +400,7 @@ theorem mid_mergePatch {s : St} {ents : List Ent} (h : Mid s ents) (e : Ent) (he
     (exec s (.mergePatch e.2.kind e.2.name e.1 c)).2 = .ok ∧ Mid (exec s (.mergePatch e.2.kind e.2.name e.1 c)).1 ents := by
   have hw := mid_write h e he hne (fun o => { o with annot := e.1, ctrl := .xr, content := c }) (fun _ => rfl) (fun _ => rfl)
     ⟨e.2.kind, e.2.name, e.1, .xr, false, false, c, false⟩ rfl rfl
+    (by intro o' ho'; rw [hf] at ho'; cases ho'; exact hc)
   simp only [exec, hf, hc, if_false]
   exact ⟨trivial, by simpa [hf] using hw⟩
 
@@ -455,11 +463,11 @@ theorem safe_composePT {s : St} (hg : Good s) (lrv : Nat) (tmpl : List Desired) 
     apply safe_renderPT hg1 lrv a tmpl _ _ tmpl fresh [] ht.fresh (by intro e h; cases h)
       (fun d h => Or.inl h) (by simpa using ht.nodup)
     intro rs hrs
-    rcases exec_updateXR_cases s1 lrv (rs.map rkey) with ⟨hc, hst⟩ | ⟨hnc, hne, hr, ho⟩
+    rcases exec_updateXR_cases s1 lrv (rs.map rkey) with ⟨hc, hst⟩ | ⟨hnc, hne, hr, ho, hf0⟩
     · -- rejected (stale resourceVersion): nothing written
       apply safe_wcall hg1 _ _ _ (by rw [hst]; exact hg1)
       intro _ h2; exact absurd hc h2
-    · have hmid := mid_after_update hg hass hrs hr ho
+    · have hmid := mid_after_update hg hass hrs hr ho hf0
       apply safe_wcall hg1 _ _ _ hmid.good
       intro _ _
       apply safe_applyPT _ (entsPT rs) _ rs _ true hmid
